@@ -158,6 +158,15 @@ func (w *serverWorld) handle(ctx context.Context, p *payloads.ActivateRequestPay
 			v := fmt.Sprintf("ph-%s-%d", id, w.setCount)
 			kmipserver.SetIdPlaceholder(ctx, v)
 			w.record(hEvent{Token: tok, ID: id, Kind: "set", Value: v})
+		case a == "pz":
+			// an empty value is a value too
+			kmipserver.SetIdPlaceholder(ctx, "")
+			w.record(hEvent{Token: tok, ID: id, Kind: "set", Value: ""})
+		case a == "px":
+			// an explicit id wins over the placeholder and leaves it alone
+			want := "explicit-" + id
+			v, err := kmipserver.GetIdOrPlaceholder(ctx, want)
+			w.record(hEvent{Token: tok, ID: id, Kind: "getx", Value: v, Err: err != nil || v != want})
 		case a == "pc":
 			kmipserver.ClearIdPlaceholder(ctx)
 			w.record(hEvent{Token: tok, ID: id, Kind: "clear"})
